@@ -449,6 +449,33 @@ def normalise_empty_containers(modules):
     return count
 
 
+def normalise_deque_calls(modules):
+    """The deque-only spellings `x.popleft()` and `x.appendleft(v)` are analysed as the sequence operations they are, `x.pop(0)` and
+    `x.insert(0, v)`, and an argument-less `deque()` / `collections.deque()` as an empty sequence: replacing a list used as a queue by a deque does
+    not change what the bookkeeping rules have to decide.  Returns the number of rewritten calls."""
+    count = 0
+    for mod in modules.values():
+        for n in ast.walk(mod.tree):
+            if not isinstance(n, ast.Call) or n.keywords:
+                continue
+            pos = {k: getattr(n, k) for k in ('lineno', 'col_offset', 'end_lineno', 'end_col_offset') if hasattr(n, k)}
+            f = n.func
+            if isinstance(f, ast.Attribute) and f.attr == 'popleft' and not n.args:
+                f.attr = 'pop'
+                n.args = [ast.Constant(value=0, **pos)]
+                count += 1
+            elif isinstance(f, ast.Attribute) and f.attr == 'appendleft' and len(n.args) == 1:
+                f.attr = 'insert'
+                n.args = [ast.Constant(value=0, **pos), n.args[0]]
+                count += 1
+            elif not n.args and (dotted(f) in ('collections.deque', 'deque')):
+                n.__class__ = ast.List
+                n.__dict__.clear()
+                n.__dict__.update(dict(elts=[], ctx=ast.Load(), **pos))
+                count += 1
+    return count
+
+
 def inline_returned_temporaries(modules):
     """`v = E` immediately followed by `return v`, with `v` a local that is bound nowhere else and read nowhere else in the function, is analysed
     as `return E`.  Returns the number of inlined temporaries."""
@@ -799,6 +826,7 @@ class Program:
         self.updates_normalised = normalise_updates(self.modules)
         self.comparisons_normalised = normalise_comparisons(self.modules)
         self.containers_normalised = normalise_empty_containers(self.modules)
+        self.deque_calls_normalised = normalise_deque_calls(self.modules)
         self.returns_inlined = inline_returned_temporaries(self.modules)
         self.walrus_hoisted = hoist_walrus(self.modules)
         self.conditionals_expanded = expand_conditional_statements(self.modules)
